@@ -258,9 +258,15 @@ fn calculate_new_withdraw_rate(
         if slashed_amount.0.u128() != 0u128 {
             slashed_amount_of_batch += Uint256::one();
         }
-        actual_unbonded_amount_of_batch = Uint256::from(
-            SignedInt::from_subtraction(unbonded_amount_of_batch, slashed_amount_of_batch).0,
-        );
+        // The protective `+ 1` can make the slashed share exceed what the batch unbonded (dust batches,
+        // fully slashed batches); the batch is then worth nothing, not the absolute difference.
+        let remaining =
+            SignedInt::from_subtraction(unbonded_amount_of_batch, slashed_amount_of_batch);
+        actual_unbonded_amount_of_batch = if remaining.1 {
+            Uint256::zero()
+        } else {
+            Uint256::from(remaining.0)
+        };
     }
 
     // Calculate the new withdraw rate
